@@ -245,7 +245,7 @@ def construct(ex, cls: type, args, kwargs, s: St):
                 s.heap = s.heap.with_field(f.name, z3.Store(s.heap.f[f.name], obj.t, v))
             else:
                 s.assume(smt.attr_func(f.name)(obj.t) == v)
-        s.trace.append(("new", cls.__name__))
+        s.trace.append(("new", cls.__name__, {k: str(getattr(v, "t", v)) for k, v in given.items()}))
         yield s, obj
         return
     key = ex.project.key_for_function(getattr(cls, "__init__", None))
@@ -358,6 +358,11 @@ def b_getattr(ex, args, kwargs, s):
             has = z3.Function(f"hasattr_{attr}", V, z3.BoolSort())(obj.t)
             ty = decl[1] if decl is not None and decl[0] == "attr" else ANY
             got = ex.read_attr(obj, attr, ty, s)
+            yield s, ex.merge(has, got, args[2], s)
+            return
+        if isinstance(obj, Val):
+            has = z3.Function(f"hasattr_{attr}", V, z3.BoolSort())(obj.t)
+            got = Val(smt.attr_func(attr)(obj.t), ANY)
             yield s, ex.merge(has, got, args[2], s)
             return
         raise Unsupported("3-arg getattr on non-object")
